@@ -853,3 +853,177 @@ func specCutNot(subj func(ssa.Value) bool, k int64) EdgeCut {
 		return equalOnEdge
 	}
 }
+
+func init() {
+	reg("C06-R4", "the comparison operators mean the same thing at every stage (sibling agreement, evaluated per operator by specialising the switch): the SQL front end maps opcode EQ/NE/GT/GE/LT/LE to Equal/NotEqual/GreaterThan/GreaterThanOrEqual/LessThan/LessThanOrEqual; Comparison.performComparison calls Value.Compare<that operator> with lhs as receiver and rhs as argument; the optimizer's Range.Update writes, per operator and operand side, exactly the bound and the inclusiveness that the operator denotes (x < c: Max, exclusive; c < x: Min, exclusive; <= / >=: inclusive; =: both, inclusive; <>: nothing)", func(w *World, r *Report) {
+		ct := w.Named("execution/expression", "ComparisonType")
+		enum := enumConsts(w, ct)
+		byName := map[string]int64{}
+		for v, c := range enum {
+			byName[c.Name()] = v
+		}
+		// (1) evaluation
+		pc := w.Fn("execution/expression", "Comparison", "performComparison")
+		ctFld := w.Field("execution/expression", "Comparison", "comparisonType")
+		want := map[string]string{"Equal": "CompareEquals", "NotEqual": "CompareNotEquals", "GreaterThan": "CompareGreaterThan", "GreaterThanOrEqual": "CompareGreaterThanOrEqual", "LessThan": "CompareLessThan", "LessThanOrEqual": "CompareLessThanOrEqual"}
+		var lhsP, rhsP *ssa.Parameter
+		for _, p := range pc.Params {
+			switch p.Name() {
+			case "lhs":
+				lhsP = p
+			case "rhs":
+				rhsP = p
+			}
+		}
+		for name, callee := range want {
+			k, ok := byName[name]
+			if !ok {
+				r.Bad("performComparison:"+name, "operator exists", "ComparisonType has no constant "+name)
+				continue
+			}
+			reach := (&PathQ{Fn: pc, Cut: []EdgeCut{specCut(func(v ssa.Value) bool { return fieldLoadOf(v, ctFld) }, k)}}).ReachableInstrs()
+			var got []string
+			okArgs := true
+			for in := range reach {
+				c, isCall := in.(*ssa.Call)
+				if !isCall {
+					continue
+				}
+				o := CalleeObj(c)
+				if o == nil || !strings.HasPrefix(o.Name(), "Compare") {
+					continue
+				}
+				got = append(got, o.Name())
+				if lhsP != nil && rhsP != nil {
+					recvOK := DependsOn(c.Call.Args[0], func(x ssa.Value) bool { return x == ssa.Value(lhsP) }) && !DependsOn(c.Call.Args[0], func(x ssa.Value) bool { return x == ssa.Value(rhsP) })
+					argOK := DependsOn(c.Call.Args[1], func(x ssa.Value) bool { return x == ssa.Value(rhsP) }) && !DependsOn(c.Call.Args[1], func(x ssa.Value) bool { return x == ssa.Value(lhsP) })
+					okArgs = okArgs && recvOK && argOK
+				}
+			}
+			sort.Strings(got)
+			r.Check(len(got) == 1 && got[0] == callee && okArgs, "performComparison:"+name, "operator "+name+" is evaluated by lhs."+callee+"(rhs)", "for "+name+" the function calls {"+strings.Join(got, ",")+"} (operands in order: "+fmt.Sprint(okArgs)+")")
+		}
+		// (2) front end
+		gt := w.FuncObj("parser", "GetTypesForBOperationExpr")
+		gf := w.SSA(gt)
+		opcodeWant := map[string]string{"EQ": "Equal", "NE": "NotEqual", "GT": "GreaterThan", "GE": "GreaterThanOrEqual", "LT": "LessThan", "LE": "LessThanOrEqual"}
+		var opNamed *types.Named
+		if len(gf.Params) == 1 {
+			opNamed, _ = gf.Params[0].Type().(*types.Named)
+		}
+		if opNamed == nil {
+			fatalf("GetTypesForBOperationExpr: unexpected signature")
+		}
+		opEnum := enumConsts(w, opNamed)
+		opByName := map[string]int64{}
+		for v, c := range opEnum {
+			opByName[c.Name()] = v
+		}
+		for on, cn := range opcodeWant {
+			ov, ok := opByName[on]
+			if !ok {
+				r.Bad("front-end:"+on, "opcode exists", "opcode."+on+" not found")
+				continue
+			}
+			reach := (&PathQ{Fn: gf, Cut: []EdgeCut{specCut(func(v ssa.Value) bool { return resolveCell(v) == ssa.Value(gf.Params[0]) }, ov)}}).ReachableInstrs()
+			vals := map[int64]bool{}
+			for in := range reach {
+				ret, isRet := in.(*ssa.Return)
+				if !isRet || len(ret.Results) != 2 {
+					continue
+				}
+				if cv, ok := constOf(retOperand(ret, 1)); ok {
+					iv, _ := constant.Int64Val(constant.ToInt(cv))
+					vals[iv] = true
+				} else {
+					vals[-999] = true
+				}
+			}
+			r.Check(len(vals) == 1 && vals[byName[cn]], "front-end:"+on+"->"+cn, "SQL operator "+on+" becomes ComparisonType "+cn, "GetTypesForBOperationExpr returns {"+constNames(enum, vals)+"} for opcode."+on)
+		}
+		// (3) optimizer range
+		up := w.Fn("planner/optimizer", "Range", "Update")
+		var opP, dirP *ssa.Parameter
+		for _, p := range up.Params {
+			switch p.Name() {
+			case "op":
+				opP = p
+			case "dir":
+				dirP = p
+			}
+		}
+		if opP == nil || dirP == nil {
+			fatalf("Range.Update: parameters op / dir not found")
+		}
+		// Direction is a bool type: DirRight = false (column on the left of the operator), DirLeft = true
+		dirVal := map[string]bool{}
+		for _, n := range []string{"DirRight", "DirLeft"} {
+			dirVal[n] = constant.BoolVal(w.Const("planner/optimizer", n).Val())
+		}
+		fMin, fMax := w.Field("planner/optimizer", "Range", "Min"), w.Field("planner/optimizer", "Range", "Max")
+		fMinI, fMaxI := w.Field("planner/optimizer", "Range", "MinInclusive"), w.Field("planner/optimizer", "Range", "MaxInclusive")
+		type exp struct{ bound, incl string } // bound: "Max" | "Min" | "both" | "none"; incl "true"/"false"/""
+		table := map[string]map[string]exp{
+			"Equal":              {"DirRight": {"both", "true"}, "DirLeft": {"both", "true"}},
+			"NotEqual":           {"DirRight": {"none", ""}, "DirLeft": {"none", ""}},
+			"LessThan":           {"DirRight": {"Max", "false"}, "DirLeft": {"Min", "false"}},
+			"GreaterThan":        {"DirRight": {"Min", "false"}, "DirLeft": {"Max", "false"}},
+			"LessThanOrEqual":    {"DirRight": {"Max", "true"}, "DirLeft": {"Min", "true"}},
+			"GreaterThanOrEqual": {"DirRight": {"Min", "true"}, "DirLeft": {"Max", "true"}},
+		}
+		for on, byDir := range table {
+			for dn, e := range byDir {
+				cuts := []EdgeCut{
+					specCut(func(v ssa.Value) bool { return resolveCell(v) == ssa.Value(opP) }, byName[on]),
+					CutWhen(func(v ssa.Value) bool { return resolveCell(v) == ssa.Value(dirP) }, !dirVal[dn]),
+				}
+				reach := (&PathQ{Fn: up, Cut: cuts}).ReachableInstrs()
+				stMin, stMax := false, false
+				incl := map[string]map[string]bool{"Min": {}, "Max": {}}
+				for in := range reach {
+					st, ok := in.(*ssa.Store)
+					if !ok {
+						continue
+					}
+					switch {
+					case isFieldAddrOf(st.Addr, fMin):
+						stMin = true
+					case isFieldAddrOf(st.Addr, fMax):
+						stMax = true
+					case isFieldAddrOf(st.Addr, fMinI), isFieldAddrOf(st.Addr, fMaxI):
+						which := "Min"
+						if isFieldAddrOf(st.Addr, fMaxI) {
+							which = "Max"
+						}
+						if cv, ok := constOf(st.Val); ok {
+							incl[which][fmt.Sprint(constant.BoolVal(cv))] = true
+						} else {
+							incl[which]["?"] = true
+						}
+					}
+				}
+				good := true
+				var why []string
+				need := func(which string, stored bool) {
+					wantStore := e.bound == which || e.bound == "both"
+					if stored != wantStore {
+						good = false
+						why = append(why, fmt.Sprintf("%s stored: %v, expected %v", which, stored, wantStore))
+					}
+					if wantStore {
+						if len(incl[which]) != 1 || !incl[which][e.incl] {
+							good = false
+							why = append(why, fmt.Sprintf("%sInclusive set to %v, expected %s", which, sortedKeys(incl[which]), e.incl))
+						}
+					} else if len(incl[which]) != 0 {
+						good = false
+						why = append(why, which+"Inclusive is written although the bound is not")
+					}
+				}
+				need("Min", stMin)
+				need("Max", stMax)
+				r.Check(good, "Range.Update:"+on+":"+dn, "operator "+on+" with the column on the "+map[string]string{"DirRight": "left", "DirLeft": "right"}[dn]+" side narrows "+e.bound+" (inclusive: "+e.incl+")", strings.Join(why, "; "))
+			}
+		}
+	})
+}
